@@ -15,7 +15,7 @@ EXPLANATION = ('Translation validation: the classification functions of classifi
 FUNCTIONS = ['classification.get_tags_lower', 'classification.categorize_amount', 'classification.is_excluded_from_spending',
              'classification.calculate_cash_flow', 'spending_report.js getTagsLower', 'categorizeAmount', 'isExcludedFromSpending',
              'calculateCashFlow']
-BOUNDS = 'amount: every IEEE-754 double; tags: null/absent or <= 3 (quick) / 4 (thorough) tags of <= 10 / 12 ASCII characters'
+BOUNDS = 'amount: every IEEE-754 double; tags: null/absent or <= 3 (quick) / 8 (thorough) tags of <= 10 / 24 ASCII characters'
 OUTSIDE = 'non-ASCII tags (JS toLowerCase vs Python lower differ for a few code points); Python ints beyond 2^53; non-string tags'
 STUBS = []
 TRUSTED = ['engine/smt/symexec.py (translator, validated against tests/test_classification.py inputs)', 'acorn parser bundled with node 20']
@@ -306,7 +306,7 @@ def mk_validate():
 
 def obligations(tier, seed):
     q = tier == 'quick'
-    k, l = (3, 10) if q else (4, 12)
+    k, l = (3, 10) if q else (8, 24)
     obs = []
     obs.append(Obligation(id='translator-validation', factory='mk_validate', engine='smt', twin=False, timeout=120,
                           group='translator validation', bounds='10 concrete (amount, tags) cases: encodings vs the real Python function and the real JS under node'))
